@@ -98,18 +98,22 @@ def some_text(cls, rng, n):
 class Script:
     """a workspace + a message script; JSON-serialisable (replay)"""
 
-    def __init__(self, files=None, dirs=None, ghosts=None, msgs=None):
+    def __init__(self, files=None, dirs=None, ghosts=None, msgs=None, init=None):
+        self.init = init              # overrides of the initialize params (None = rootUri of the workspace)
         self.files = files or {}      # rel -> text (written before the server starts)
         self.dirs = dirs or []
         self.ghosts = ghosts or []    # rel of files deleted after start-up
         self.msgs = msgs or []        # dicts
 
     def to_json(self):
-        return {"files": self.files, "dirs": self.dirs, "ghosts": self.ghosts, "msgs": self.msgs}
+        d = {"files": self.files, "dirs": self.dirs, "ghosts": self.ghosts, "msgs": self.msgs}
+        if self.init is not None:
+            d["init"] = self.init
+        return d
 
     @staticmethod
     def from_json(d):
-        return Script(d["files"], d["dirs"], d["ghosts"], d["msgs"])
+        return Script(d["files"], d["dirs"], d["ghosts"], d["msgs"], d.get("init"))
 
     def model_line(self):
         fsw = ["f" + esc(r) for r in sorted(self.files) if r not in self.ghosts] + ["d" + esc(d) for d in self.dirs]
@@ -132,13 +136,22 @@ class Script:
 def gen_script(rng, maxlen):
     s = Script()
     n = 0
-    for cls in CLASSES[:2 + rng.below(4)]:
+    # how the client names the workspace: a root uri (usual), none at all, none with an empty / a filled folder list
+    k = rng.below(16)
+    if k == 0:
+        s.init = {"rootUri": None}
+    elif k == 1:
+        s.init = {"rootUri": None, "workspaceFolders": []}
+    elif k == 2:
+        s.init = {"rootUri": None, "workspaceFolders": None}
+    nogod = rng.chance(1, 16)         # a workspace without a single Gold file
+    for cls in ([] if nogod else CLASSES[:2 + rng.below(4)]):
         n += 1
         sub = rng.choice(["", "", "sub/", "Bundle1/deep/"])
         s.files[sub + cls + ".god"] = some_text(cls, rng, n)
     if rng.chance(1, 2):
         s.files["notes.txt"] = "not gold at all\n"
-    core_ws = rng.chance(1, 5)
+    core_ws = (not nogod) and rng.chance(1, 5)
     if core_ws:
         # "core" directories (WAM*, WF*): the server analyses their files in a start-up job of the pool while the
         # first messages arrive — enough files for that job to overlap with the session's first saves / requests
@@ -161,6 +174,8 @@ def gen_script(rng, maxlen):
 
     def target():
         r = rng.below(100)
+        if nogod and (r < 55 or r >= 94 or (70 <= r < 80)):
+            r = 60
         if r < 55:
             return "F" + esc(rng.choice(sorted(s.files))), "file"
         if r < 70:
@@ -326,7 +341,7 @@ def run_script(s, wsdir, deadline):
         with open(os.path.join(root, rel), "w", encoding="utf-8", errors="surrogatepass") as f:
             f.write(text)
     root = os.path.realpath(root)
-    srv = lsp.Server(root, stderr_path=os.path.join(wsdir, "stderr.txt"))
+    srv = lsp.Server(root, stderr_path=os.path.join(wsdir, "stderr.txt"), init_params=s.init)
     obs = {"init": srv.init_ok}
     try:
         if not srv.init_ok:
@@ -334,7 +349,7 @@ def run_script(s, wsdir, deadline):
             return obs
         # start-up barrier: the index and the start-up jobs of the pool are done when a main-thread
         # and a pool request have been answered (FIFO queue)
-        first = sorted(s.files)[0]
+        first = (sorted(s.files) or ["nowhere.god"])[0]
         srv.request("warm1", "textDocument/documentSymbol", lsp.td(lsp.path_uri(os.path.join(root, first))))
         srv.request("warm2", "textDocument/diagnostic", lsp.td(lsp.path_uri(os.path.join(root, first))))
         w = srv.settle(["warm1", "warm2"], deadline)
